@@ -1014,6 +1014,7 @@ func ifaceContractFor(prog *Program, fi *FuncInfo) *Contract {
 		}
 	}
 	sort.Strings(keys)
+	var first *Contract
 	for _, key := range keys {
 		ct := prog.Contracts[key]
 		parts := strings.Split(key, ".")
@@ -1029,10 +1030,41 @@ func ifaceContractFor(prog *Program, fi *FuncInfo) *Contract {
 			continue
 		}
 		if it, ok := tn.Type().Underlying().(*types.Interface); ok && types.Implements(rt, it) {
-			return ct
+			if first == nil {
+				first = ct
+				continue
+			}
+			// a second interface contract for the same method: callers through that interface rely on it, but the
+			// implementation is verified against the first only - so the two must say the same
+			if contractText(first) != contractText(ct) {
+				msg := fmt.Sprintf("%s implements both %s and %s, whose contracts for %s differ: they must be textually identical", fi.Key, first.Key, ct.Key, fi.Decl.Name.Name)
+				dup := false
+				for _, m := range prog.ContractErrors {
+					if m == msg {
+						dup = true
+					}
+				}
+				if !dup {
+					prog.ContractErrors = append(prog.ContractErrors, msg)
+				}
+			}
 		}
 	}
-	return nil
+	return first
+}
+
+func contractText(ct *Contract) string {
+	var b strings.Builder
+	for _, c := range ct.Requires {
+		b.WriteString("R:" + strings.Join(strings.Fields(c.Src), " ") + "\n")
+	}
+	for _, c := range ct.Ensures {
+		b.WriteString("E:" + strings.Join(strings.Fields(c.Src), " ") + "\n")
+	}
+	for _, c := range ct.Modifies {
+		b.WriteString("M:" + strings.Join(strings.Fields(c.Src), " ") + "\n")
+	}
+	return b.String()
 }
 
 // verifyRefine checks that a method's own contract refines the contract of the interface method
